@@ -89,7 +89,7 @@ def classify_default(text, qtype=None) -> str:
         return "dynamic"
     if re.fullmatch(RE_NUM, t) or re.fullmatch(RE_DATE, t) or re.fullmatch(RE_TIME, t) or re.fullmatch(RE_DATE + "T" + RE_TIME, t):
         return "static"
-    if re.fullmatch(r"[A-Za-z][\w+.\-]*://\S*", t):
+    if re.fullmatch(r"[A-Za-z]\w*://[\w./]*", t):      # (a URI without characters that could be operators)
         return "static"
     hyphen_type = qtype in HYPHEN_OK_TYPES
     if RE_SPACED_OP.search(t):
